@@ -856,3 +856,8 @@ class SecureHomeKitConnection(HomeKitConnection):
                 # We will be retried, so do not leave this connection behind
                 self._drop_transport()
                 raise
+            if not self.is_connected and not self.closing:
+                # The connection went away again while the owner was still
+                # setting it up. _connection_lost could not start a new connector
+                # because this one was still running, so fail and get retried.
+                raise AccessoryDisconnectedError("Connection lost while it was being set up")
